@@ -51,6 +51,15 @@ LAZY_ROOTS = [(DEX, "DebugInfoItem.__init__"), (APK, "get_apkid")]
 BOUND_MAX = 1 << 17
 
 PRECISE = ("direct", "ctor", "typed", "super", "hof", "table")
+STREAMISH = ("read", "seek", "tell", "unpack", "unpack_from", "debug", "info", "warning", "error", "format")
+
+
+def run_keys(run):
+    """stream keys the run saw (receivers of read/seek/tell in the function)"""
+    try:
+        return set(run._function_stream_keys())
+    except Exception:
+        return set()
 
 
 class Cert:
@@ -134,10 +143,15 @@ class Core:
             if isinstance(n, ast.Call) and isinstance(n.func, ast.Attribute) and n.func.attr in mut:
                 if ast.unparse(n.func.value) in texts:
                     return False
-            if isinstance(n, (ast.Attribute, ast.Subscript)) and isinstance(n.ctx, (ast.Store, ast.Del)):
+            if isinstance(n, ast.Attribute) and isinstance(n.ctx, (ast.Store, ast.Del)):
+                # `self.a = v` changes self.a (and what hangs off it), not self.b
+                t = ast.unparse(n)
+                if any(x == t or x.startswith(t + ".") or x.startswith(t + "[") for x in texts):
+                    return False
+            if isinstance(n, ast.Subscript) and isinstance(n.ctx, (ast.Store, ast.Del)):
                 t = ast.unparse(n)
                 base = ast.unparse(n.value)
-                if t in texts or base in texts:
+                if any(x == t or x == base or x.startswith(base + "[") or x.startswith(t + ".") for x in texts):
                     return False
         return True
 
@@ -472,6 +486,172 @@ class Core:
             return None
         return None
 
+    # ------------------------------------------------------------------ loop-carried state on a path
+    @staticmethod
+    def _preloop_const(loop, name):
+        """constant bound to `name` by the simple assignment that precedes the loop in its own block, else None"""
+        p = parent(loop)
+        for fld in ("body", "orelse", "finalbody"):
+            lst = getattr(p, fld, None)
+            if isinstance(lst, list) and any(x is loop for x in lst):
+                i = [k for k, x in enumerate(lst) if x is loop][0]
+                for j in range(i - 1, -1, -1):
+                    st = lst[j]
+                    if isinstance(st, ast.Assign) and len(st.targets) == 1 and isinstance(st.targets[0], ast.Name) and st.targets[0].id == name:
+                        if isinstance(st.value, ast.Constant) and isinstance(st.value.value, (int, bool, str, bytes, type(None))):
+                            return (st.value.value,)
+                        return None
+                    if name in _assigned_names(st):
+                        return None
+        return None
+
+    def _tv(self, e, env, f):
+        """three-valued truth of e: True / False / None(unknown); env: name -> (const,) for names with a known value"""
+        def val(x):
+            if isinstance(x, ast.Constant):
+                return (x.value,)
+            if isinstance(x, ast.Name):
+                return env.get(x.id)
+            v = None
+            try:
+                if not any(isinstance(n, ast.Name) and (n.id in env or True) for n in ast.walk(x)):
+                    v = self.b.fold(x, f)
+            except Exception:
+                v = None
+            return (v,) if isinstance(v, (int, str, bytes, bool)) else None
+        if isinstance(e, ast.BoolOp):
+            vs = [self._tv(v, env, f) for v in e.values]
+            if isinstance(e.op, ast.And):
+                if any(v is False for v in vs):
+                    return False
+                return True if all(v is True for v in vs) else None
+            if any(v is True for v in vs):
+                return True
+            return False if all(v is False for v in vs) else None
+        if isinstance(e, ast.UnaryOp) and isinstance(e.op, ast.Not):
+            v = self._tv(e.operand, env, f)
+            return None if v is None else (not v)
+        if isinstance(e, ast.Compare) and len(e.ops) == 1:
+            a, b = val(e.left), val(e.comparators[0])
+            if a is None or b is None:
+                return None
+            try:
+                op = e.ops[0]
+                table = {ast.Eq: lambda x, y: x == y, ast.NotEq: lambda x, y: x != y, ast.Lt: lambda x, y: x < y, ast.LtE: lambda x, y: x <= y,
+                         ast.Gt: lambda x, y: x > y, ast.GtE: lambda x, y: x >= y, ast.Is: lambda x, y: x is y, ast.IsNot: lambda x, y: x is not y}
+                if type(op) in table:
+                    return bool(table[type(op)](a[0], b[0]))
+            except Exception:
+                return None
+            return None
+        v = val(e)
+        return None if v is None else bool(v[0])
+
+    def _carried_state_matters(self, f: Func, loop, run, settled):
+        """On the path that `run` followed: is there loop-carried state (a variable/attribute updated from its own
+        previous value, or a container mutated in place) that an exit condition depends on, other than the `settled`
+        candidates whose change was analysed?  -> reason string, or None when the exits do not depend on such state.
+        An exit condition whose outcome is already decided by variables the path leaves at their pre-loop constant
+        (three-valued evaluation) does not count."""
+        ex = []
+        seen_ids = set()
+        for st in run.executed:
+            if id(st) not in seen_ids:
+                seen_ids.add(id(st))
+                ex.append(st)
+        assigned = set()
+        carried = set()
+        touched_objs = set()
+        for st in ex:
+            if isinstance(st, ast.AugAssign):
+                d = dotted(st.target)
+                if d:
+                    carried.add(d)
+                    assigned.add(d)
+            elif isinstance(st, (ast.Assign, ast.AnnAssign)):
+                tgts = st.targets if isinstance(st, ast.Assign) else [st.target]
+                used = {dotted(n) for n in ast.walk(st.value) if isinstance(n, (ast.Name, ast.Attribute))} if st.value is not None else set()
+                for t in tgts:
+                    for x in ([t] if not isinstance(t, (ast.Tuple, ast.List)) else t.elts):
+                        d = dotted(x)
+                        if d:
+                            assigned.add(d)
+                            if d in used:
+                                carried.add(d)
+            elif isinstance(st, (ast.For, ast.AsyncFor)):
+                for x in ast.walk(st.target):
+                    if isinstance(x, ast.Name):
+                        assigned.add(x.id)
+            if isinstance(st, ast.Expr) and isinstance(st.value, ast.Call) and isinstance(st.value.func, ast.Attribute) \
+                    and st.value.func.attr in _Run.GROW + _Run.SHRINK1 + ("clear", "discard"):
+                d = dotted(st.value.func.value)
+                if d:
+                    carried.add(d)
+        # objects handed to / called on in the path may be changed by the callee: `tries.bump()`, `note(state)`
+        for st in ex:
+            for n in ([st] if isinstance(st, ast.expr) else []) + [x for x in ast.walk(st) if isinstance(x, ast.Call)]:
+                if not isinstance(n, ast.Call):
+                    continue
+                fn = n.func
+                if isinstance(fn, ast.Name) and fn.id in ("len", "isinstance", "int", "str", "repr", "abs", "min", "max", "range", "unpack", "ord", "bool"):
+                    continue
+                if isinstance(fn, ast.Attribute) and fn.attr in STREAMISH:
+                    continue
+                objs = []
+                if isinstance(fn, ast.Attribute):
+                    objs.append(fn.value)
+                objs += list(n.args) + [k.value for k in n.keywords]
+                for o in objs:
+                    d = dotted(o)
+                    if d and d not in ("self",) and not d.startswith(("logger", "logging")):
+                        touched_objs.add(d)
+            if isinstance(st, (ast.If, ast.While, ast.For)):
+                continue
+        carried -= set(settled)
+        # exit conditions met on the path
+        conds = [(loop.test, True)]
+        for st in ex:
+            if isinstance(st, ast.If):
+                if leaves_only(st.body):
+                    conds.append((st.test, False))
+                elif st.orelse and leaves_only(st.orelse):
+                    conds.append((st.test, True))
+                elif any(isinstance(n, (ast.Break, ast.Return, ast.Raise)) for n in own_nodes(st)):
+                    conds.append((st.test, None))
+            elif isinstance(st, ast.While) and st is not loop:
+                if any(isinstance(n, (ast.Return, ast.Raise)) for n in own_nodes(st)):
+                    conds.append((st.test, None))
+        env = {}
+        for cond, _ in conds:
+            for n in ast.walk(cond):
+                if isinstance(n, ast.Name) and n.id not in env and n.id not in assigned:
+                    c = self._preloop_const(loop, n.id)
+                    if c is not None:
+                        env[n.id] = c
+        streams = {k for k in run_keys(run)}
+        for cond, want in conds:
+            names = {dotted(n) for n in ast.walk(cond) if isinstance(n, (ast.Name, ast.Attribute))} - {None}
+            hit = names & carried
+            # attributes / items of an object that some call on the path received (it may have been changed there)
+            for nm in names:
+                for o in touched_objs:
+                    if o in streams or nm in streams:
+                        continue
+                    re_bound = any(nm == a or nm.startswith(a + ".") for a in assigned)   # a fresh object every iteration
+                    if (nm.startswith(o + ".") or nm == o) and not re_bound and not isinstance(self._preloop_const(loop, nm), tuple):
+                        # reading an attribute of the object, or the object itself when it is a mutable container
+                        if nm != o or any(isinstance(x, ast.Call) and isinstance(x.func, ast.Attribute) and dotted(x.func.value) == o
+                                          for s2 in ex for x in ast.walk(s2)):
+                            hit = hit | {nm}
+            # `len(x)` / `x` of a mutated container
+            if not hit:
+                continue
+            tv = self._tv(cond, env, f)
+            if want is not None and tv is want:
+                continue   # decided without the carried state
+            return "exit condition `%s` depends on loop-carried state %s" % (_u(cond, 50), sorted(hit))
+        return None
+
     # ------------------------------------------------------------------ definite non-progress
     MAX_PATHS = 256
 
@@ -518,6 +698,11 @@ class Core:
                             ok = False
                     if ok and d != ZERO:
                         facts.append("`%s` changes by %s" % (name, iv_str(d)))
+                if ok and kind == "while":
+                    settled = {c[1] for c in cands}
+                    why_not = self._carried_state_matters(f, loop, run, settled)
+                    if why_not:
+                        ok = False
                 if ok:
                     if not facts:
                         facts.append("no stream is read and no exit-relevant state changes")
@@ -986,6 +1171,7 @@ class Core:
                 if id(tgt.node) not in ids:
                     continue
                 ok = False
+                dfn = False
                 why = "no stream of %s is handed to %s" % (f.qualname, tgt.qualname)
                 for ckey, k in mapping.items():
                     if k.split(".")[0] in params:
@@ -995,17 +1181,18 @@ class Core:
                             why = "`%s` advanced %s with >= %d checked byte(s) before the call" % (k, iv_str(p), a)
                         else:
                             why = "`%s` advanced only %s with >= %d checked byte(s) before the call" % (k, iv_str(p), a)
+                            dfn = (-INF < p[0] <= 0) and not run.loose
                 if not ok and self._shrinking_arg(cnode, params):
                     ok = True
                     why = "an argument is a strictly shorter slice of a parameter"
                 prev = per_call.get(id(cnode))
                 if prev is None or (prev[2] and not ok):
-                    per_call[id(cnode)] = (cnode, tgt, ok, why)
+                    per_call[id(cnode)] = (cnode, tgt, ok, why, dfn)
             # calls that the interpreter never reached (dead code) are ignored
-            for cnode, tgt, ok, why in per_call.values():
+            for cnode, tgt, ok, why, dfn in per_call.values():
                 details.append((f, cnode, tgt, ok, why))
                 if not ok:
-                    nonprog.add_edge(id(f.node), id(tgt.node), call=cnode, src=f)
+                    nonprog.add_edge(id(f.node), id(tgt.node), call=cnode, src=f, definite=dfn, why=why)
         try:
             cyc = nx.find_cycle(nonprog)
         except nx.NetworkXNoCycle:
@@ -1018,6 +1205,10 @@ class Core:
             nonprog[u][v]["src"].qualname for u, v, *_ in cyc) + " -> ...", unresolved=unresolved)
         c.call = first["call"]
         c.src = first["src"]
+        c.definite = None
+        if all(nonprog[u][v]["definite"] for u, v, *_ in cyc):
+            c.definite = "the stream is handed down unconsumed on every edge of the cycle (%s)" % "; ".join(
+                nonprog[u][v]["why"] for u, v, *_ in cyc)
         return c, details
 
     @staticmethod
@@ -1154,8 +1345,12 @@ def _check_collection_for(core, sink, f, fo, seen, undecided):
 
 
 # =============================================================================
-FIXTURE_EXPECT = {"while_bad": False, "while_ok": True, "while_eof_exit_ok": True, "seek_back_bad": False, "counted_bad": False,
-                  "counted_ok": True, "counter_bad": False, "counter_ok": True}
+# expected verdict per fixture function: 'cert' | 'finding' (input driven + definite non-progress path) | 'undecided'
+FIXTURE_EXPECT = {"while_bad": "finding", "while_ok": "cert", "while_eof_exit_ok": "cert", "seek_back_bad": "finding",
+                  "counted_bad": "finding", "counted_ok": "cert", "counter_bad": "undecided", "counter_ok": "cert",
+                  "countdown_ok": "cert", "shift_ok": "cert", "len_bound_ok": "cert", "guard_bounded_ok": "cert",
+                  "flag_drain_ok": "cert", "opaque_seek_undecided": "undecided", "value_loop_undecided": "undecided",
+                  "retry_state_undecided": "undecided", "carried_flag_irrelevant_bad": "finding"}
 
 
 def fixture_selfcheck(ctx):
@@ -1172,20 +1367,23 @@ def fixture_selfcheck(ctx):
     for name, want in sorted(FIXTURE_EXPECT.items()):
         f = core.cg.func(rel, name)
         sk = _Collect()
-        check_function(core, sk, f, in_scope=True, seen={})
-        got = not sk.bad and bool(sk.good)
-        ctx.ob("fixture", name, got == want, "certified" if got else ("reported: " + (sk.bad[0][2][:120] if sk.bad else "nothing examined")))
+        und = check_function(core, sk, f, in_scope=True, seen={})
+        got = "finding" if sk.bad else ("undecided" if und else ("cert" if sk.good else "nothing"))
+        ctx.ob("fixture", name, got == want, got + (": " + (sk.bad[0][2][:120] if sk.bad else (und[0][1][:120] if und else ""))))
         if got != want:
-            raise AnalysisError("fixture %s: expected %s, rule says %s -- the rule lost its teeth / over-reports"
-                                % (name, "a certificate" if want else "a finding", "certified" if got else "finding"))
-    for name, want in (("rec_bad", False), ("rec_ok", True)):
+            raise AnalysisError("fixture %s: expected verdict %r, rule says %r -- the rule lost its teeth / over-reports (%s)"
+                                % (name, want, got, (sk.bad[0][2][:160] if sk.bad else (und[0][1][:160] if und else ""))))
+    for name, want in (("rec_bad", "undecided"), ("rec_stream_bad", "finding"), ("rec_ok", "cert")):
         f = core.cg.func(rel, name)
         comps = core.recursive_sccs([f])
-        got = bool(comps) and bool(core.certify_scc(comps[0])[0])
-        ctx.ob("fixture", name, got == want, "K5 certified" if got else "recursion without progress reported")
-        if got != want or not comps:
-            raise AnalysisError("fixture %s: recursion certificate check gave the wrong verdict" % name)
-    ctx.count("fixture_cases", len(FIXTURE_EXPECT) + 2)
+        if not comps:
+            raise AnalysisError("fixture %s: recursion not found" % name)
+        cert = core.certify_scc(comps[0])[0]
+        got = "cert" if cert else ("finding" if getattr(cert, "definite", None) else "undecided")
+        ctx.ob("fixture", name, got == want, got)
+        if got != want:
+            raise AnalysisError("fixture %s: recursion check gave %r, expected %r" % (name, got, want))
+    ctx.count("fixture_cases", len(FIXTURE_EXPECT) + 3)
 
 
 def run(ctx):
@@ -1207,6 +1405,7 @@ def run(ctx):
     # ---- 1. loops ----------------------------------------------------------------------------
     seen = {}
     inventory = 0
+    undecided = []
     funcs_in_modules = []
     pending = [f for f in cg.funcs.values() if f.file in PARSER_MODULES]
     while pending:
@@ -1227,7 +1426,7 @@ def run(ctx):
             continue
         if scope:
             ctx.analysed(f)
-        check_function(core, ctx, f, in_scope=scope, seen=seen)
+        undecided += check_function(core, ctx, f, in_scope=scope, seen=seen)
     ctx.count("while_loops_inventory", inventory)
 
     # ---- 2. recursion ---------------------------------------------------------------------------
@@ -1242,10 +1441,11 @@ def run(ctx):
             ctx.check("recursion/certificate", name, True, comp[0], name, "", detail="%s -- %s" % (cert.kind, cert.detail))
             for f, cnode, tgt, ok, why in details:
                 ctx.ob("recursion/call-site", "%s: %s" % (f.qualname, _u(cnode, 60)), True, ("progress: " if ok else "no progress (not on a progress-free cycle): ") + why)
-        elif cert.unresolved:
-            raise AnalysisError("recursive SCC %s: a call receiving the stream could not be resolved" % name)
+        elif getattr(cert, "definite", None) and not cert.unresolved:
+            ctx.check("recursion/certificate", name, False, cert.src, cert.call, "%s; %s" % (cert.why, cert.definite), node=cert.call)
         else:
-            ctx.check("recursion/certificate", name, False, cert.src, cert.call, cert.why, node=cert.call)
+            undecided.append(("recursive SCC " + name, "a call receiving the stream could not be resolved" if cert.unresolved
+                              else "no K5 certificate, but the recursion is not shown to hand down an unconsumed stream: " + cert.why))
     maybe = [c for c in cg.sccs(closure) if not any({id(f.node) for f in c} <= {id(f.node) for f in d} for d in sccs)]
     for comp in maybe:
         ctx.count("may_call_sccs")
@@ -1254,12 +1454,25 @@ def run(ctx):
                "(CPython bounds any recursion by RecursionError)")
 
     # ---- floors -----------------------------------------------------------------------------------------
-    ctx.floor("while_loops_inventory", 23)
-    ctx.floor("while_loops_in_scope", 18)
-    ctx.floor("range_loops", 45)
-    ctx.floor("range_input_counted", 35)
+    # floors well below today's counts (23 / 18 / 47 / 37 / 1 / 300): refactorings legitimately add and remove loops
+    ctx.floor("while_loops_inventory", 14)
+    ctx.floor("while_loops_in_scope", 10)
+    ctx.floor("range_loops", 28)
+    ctx.floor("range_input_counted", 18)
     ctx.floor("recursive_sccs", 1)
     ctx.floor("closure_functions", 150)
+    if undecided:
+        for inst, why in undecided:
+            ctx.ob("undecided", inst, True, why[:300])
+        from ..report import load_known, _match_known
+        known = load_known()
+        new_findings = [x for x in ctx.findings if _match_known(x, known) is None]
+        msg = "%d loop(s)/recursion(s) could not be decided (no certificate, no definite non-progress path): %s" % (
+            len(undecided), " || ".join("%s -- %s" % (i, w[:220]) for i, w in undecided[:3]))
+        if new_findings:
+            ctx.note("in addition to the findings: " + msg)   # a definite finding is not hidden behind exit 2
+        else:
+            raise AnalysisError(msg)
     ctx.assume("receivers of .read/.seek/.tell whose static type is not a repository class are byte streams with io.BytesIO semantics "
                "(read(n) returns at most n bytes and b'' at EOF; struct unpack raises on a short buffer)")
     ctx.assume("formatting/str()/==/hash of a value whose static type is unknown does not enter repository code")
@@ -1463,11 +1676,15 @@ def _benign_for_function(fnode):
 
 
 def _verdicts(core, f, in_scope=True):
+    """-> (sink, err): err is None when every loop was certified or reported; 'undecided: ...' when the rule would stop
+    with exit 2 (no certificate and no definite non-progress path)"""
     sk = _Collect()
     try:
-        check_function(core, sk, f, in_scope=in_scope, seen={})
+        und = check_function(core, sk, f, in_scope=in_scope, seen={})
     except AnalysisError as e:
-        return None, "analysis-error: %s" % str(e)[:120]
+        return sk, "analysis-error: %s" % str(e)[:120]
+    if und and not sk.bad:
+        return sk, "undecided: %s -- %s" % (und[0][0], und[0][1][:120])
     return sk, None
 
 
@@ -1484,7 +1701,8 @@ def thorough(ctx, core, closure):
             w, fo, co = loops_of(f.node)
             if fo or co:
                 try:
-                    check_function(core, wider, f, in_scope=True, seen={})
+                    for inst, why in check_function(core, wider, f, in_scope=True, seen={}):
+                        wider.bad.append(("undecided", inst, why))
                 except AnalysisError:
                     wider.count("unanalysable")
                 n_out += 1
@@ -1514,7 +1732,7 @@ def thorough(ctx, core, closure):
             if isinstance(it, ast.Call) and isinstance(it.func, ast.Name) and it.func.id == "range" and core.classify_range(f, it)[0] == "input":
                 if core.k1_for(f, lp):
                     targets.append((f, lp, "K1", "for ... in " + _u(it, 50)))
-    killed = total = 0
+    killed = total = undecided_m = 0
     survivors = []
     for f, lp, kind, lab in targets:
         top = _top_qualname(core, f)
@@ -1542,11 +1760,14 @@ def thorough(ctx, core, closure):
             finally:
                 for mm in base.modules.values():
                     mm.repo = base
-            fired = err is not None or bool(sk.bad)
-            if fired:
+            if sk.bad:
                 killed += 1
                 ctx.ob("mutation-adequacy", "%s: %s [%s]" % (f.qualname, lab, desc), True,
-                       "breaking edit detected: %s" % (err or sk.bad[0][2])[:160])
+                       "breaking edit reported (definite non-progress path): %s" % sk.bad[0][2][:160])
+            elif err is not None:
+                undecided_m += 1
+                ctx.ob("mutation-adequacy", "%s: %s [%s]" % (f.qualname, lab, desc), True,
+                       "breaking edit not certified any more (exit 2): %s" % err[:160])
             else:
                 survivors.append("%s: %s [%s]" % (f.qualname, lab, desc))
     # recursion mutant: the reads in front of the recursive calls disappear
@@ -1573,9 +1794,12 @@ def thorough(ctx, core, closure):
                 for mm in base.modules.values():
                     mm.repo = base
             if not cert:
-                killed += 1
+                if getattr(cert, "definite", None):
+                    killed += 1
+                else:
+                    undecided_m += 1
                 ctx.ob("mutation-adequacy", "SCC %s [reads before the recursive calls removed]" % comp[0].qualname, True,
-                       "breaking edit detected: %s" % cert.why[:160])
+                       "breaking edit %s: %s" % ("reported" if getattr(cert, "definite", None) else "not certified any more (exit 2)", cert.why[:160]))
             else:
                 survivors.append("SCC %s [reads removed]" % comp[0].qualname)
     # benign edits
@@ -1607,14 +1831,15 @@ def thorough(ctx, core, closure):
             finally:
                 for mm in base.modules.values():
                     mm.repo = base
-            if err is None and base_bad is not None and len(sk.bad) <= len(base_bad):
+            if err is None and len(sk.bad) <= len(base_bad or ()):
                 b_silent += 1
+            elif err is not None and base_err is not None:
+                b_silent += 1   # undecided before, undecided after
             elif err is not None:
-                b_silent += 0
                 alarms.append("%s [%s]: %s" % (top.qualname, desc, err))
             else:
                 alarms.append("%s [%s]: %s" % (top.qualname, desc, sk.bad[0][2][:120]))
-    ctx.extra.update(mutants_total=total, mutants_killed=killed, surviving_mutants=survivors[:40],
+    ctx.extra.update(mutants_total=total, mutants_killed=killed, mutants_unanalysable=undecided_m, surviving_mutants=survivors[:40],
                      benign_total=b_total, benign_silent=b_silent, benign_alarms=alarms[:20],
                      mutation_targets=len(targets))
     ctx.ob("benign-silence", "%d behaviour-preserving in-memory edits" % b_total, b_silent == b_total, "%d/%d silent" % (b_silent, b_total))
